@@ -340,7 +340,7 @@ func c30JSON(s string) string {
 
 func TestC30(t *testing.T) {
 	r := evid.Start(t, "C30", "exploration")
-	n := r.N(600, 20000)
+	n := r.N(3000, 40000)
 	base, err := os.MkdirTemp("", "verif-c30-")
 	if err != nil {
 		r.Inconclusive("cannot create scratch dir: " + err.Error())
@@ -385,7 +385,7 @@ func TestC30(t *testing.T) {
 		r.Inconclusive("the node's accept/reject decisions differ from the 512-byte prediction; the workload may not reach the limit as intended")
 	}
 	r.Finish("random edit histories (4-15 edits) on an agent with a tags file: keys/values from a valid-UTF-8 alphabet (empty, unicode, quotes, newlines, NUL, JSON-escaped characters), set/delete overlaps, values sized to cross the 512-byte metadata limit; after each edit effective tags vs reference arithmetic, tags file reloaded through agent.Create vs effective tags, restarts on the same file; non-trivial = history with a rejected edit or a set/delete overlap; distinct by full history",
-		r.N(100, 2000),
+		r.N(500, 8000),
 		"keys and values are valid UTF-8 (the property's quantifier)",
 		"tags in effect = Serf().LocalMember().Tags of the running agent")
 }
